@@ -188,7 +188,16 @@ def run(prop, tier, seed):
         except ExtractError as e:
             raise Infra('extraction: %s' % e)
         with cf.ThreadPoolExecutor(max_workers=2) as ex:
-            for r in ex.map(lambda u: run_unit(u, tier), ulist):
+            def safe(u):
+                # a unit that cannot be extracted (unsupported construct, lost anchor) is undecided; the other units and the
+                # Kani groups of the property still run, and what they report is reported
+                try:
+                    return run_unit(u, tier)
+                except Infra as e:
+                    return {'unit': u.name, 'model': u.model, 'path': None, 'passes': {}, 'failures': [], 'infra': ['unit %s: %s' % (u.name, e)],
+                            'functions': [], 'assumed': [], 'canaries': 0, 'canaries_failed_as_expected': 0, 'n_lemmas': 0, 'n_poly': 0,
+                            'trusted_prelude_items': 0, 'escalated': []}
+            for r in ex.map(safe, ulist):
                 result['units'].append(r)
                 result['failures'] += r['failures']
                 result['infra'] += r['infra']
